@@ -903,10 +903,15 @@ evhttp_connection_fail_(struct evhttp_connection *evcon,
 	/* reset the connection */
 	evhttp_connection_reset_(evcon, 1);
 
-	/* We are trying the next request that was queued on us */
-	if (TAILQ_FIRST(&evcon->requests) != NULL)
-		evhttp_connection_connect_(evcon);
-	else
+	/* We are trying the next request that was queued on us; when a
+	 * retry of the connect is already scheduled it will do that, and
+	 * connecting now would let a second failure re-initialise the
+	 * pending retry timer. */
+	if (TAILQ_FIRST(&evcon->requests) != NULL) {
+		if (!(event_initialized(&evcon->retry_ev) &&
+		    evtimer_pending(&evcon->retry_ev, NULL)))
+			evhttp_connection_connect_(evcon);
+	} else
 		if ((evcon->flags & EVHTTP_CON_OUTGOING) &&
 		    (evcon->flags & EVHTTP_CON_AUTOFREE)) {
 			evhttp_connection_free(evcon);
